@@ -78,6 +78,8 @@ type ServerSide struct {
 	DecodeErrBodyChanged bool   `json:"decode_err_body_changed,omitempty"`
 	Middleware2Saw       string `json:"middleware2_saw,omitempty"`
 	SecurityCalls        int    `json:"security_calls"`
+	CustomNotFound       int    `json:"custom_not_found,omitempty"`
+	CustomNotAllow       int    `json:"custom_method_not_allowed,omitempty"`
 	Allow                string `json:"allow,omitempty"`
 	Returned             bool   `json:"returned"`
 	TempFiles            int    `json:"temp_files"`
